@@ -107,7 +107,7 @@ fn obs_event(e: Event, out: &mut Obs) {
 
 fn resolve_obj(obj: &mut ReqObj, val: u64) -> bool {
     match obj {
-        ReqObj::Op(r) => r.resolve(val).is_ok(),
+        ReqObj::Op(r) => r.resolve(Val(val)).is_ok(),
         ReqObj::Sig(r) => r.resolve(()).is_ok(),
     }
 }
@@ -383,9 +383,9 @@ where
     A::Effect: LabEffect,
 {
     pub core: Core<A>,
-    table: HashMap<Key, ReqObj>,
-    seen_log: usize,
-    legacy: bool,
+    pub table: HashMap<Key, ReqObj>,
+    pub seen_log: usize,
+    pub legacy: bool,
 }
 
 impl<A: LabApp> CoreHost<A>
@@ -401,7 +401,7 @@ where
         }
     }
 
-    fn observe(&mut self, effects: Vec<A::Effect>, out: &mut Obs) {
+    pub fn observe(&mut self, effects: Vec<A::Effect>, out: &mut Obs) {
         for e in effects {
             obs_effect(e, &mut self.table, out);
         }
@@ -466,7 +466,7 @@ where
             Action::Resolve { site, arg, val } => {
                 let obj = self.table.get_mut(&(*site, *arg)).expect("request in table");
                 let r = match obj {
-                    ReqObj::Op(r) => self.core.resolve(r, *val),
+                    ReqObj::Op(r) => self.core.resolve(r, Val(*val)),
                     ReqObj::Sig(r) => self.core.resolve(r, ()),
                 };
                 match r {
@@ -507,7 +507,7 @@ where
 // ---------------------------------------------------------------------------
 
 #[derive(Deserialize)]
-enum FfiEffect {
+pub enum FfiEffect {
     #[serde(alias = "OpCap")]
     Op(Op),
     #[serde(alias = "SigCap")]
@@ -515,9 +515,9 @@ enum FfiEffect {
 }
 
 #[derive(Deserialize)]
-struct FfiRequest {
-    id: u32,
-    effect: FfiEffect,
+pub struct FfiRequest {
+    pub id: u32,
+    pub effect: FfiEffect,
 }
 
 fn bincode_opts() -> impl bincode::Options + Copy {
@@ -537,8 +537,8 @@ where
 {
     bincode: Option<Bridge<A>>,
     json: Option<BridgeWithSerializer<A>>,
-    ids: HashMap<Key, (u32, u8)>,
-    seen_log: usize,
+    pub ids: HashMap<Key, (u32, u8)>,
+    pub seen_log: usize,
     pub ids_seen: Vec<u32>,
 }
 
@@ -566,7 +566,7 @@ where
         }
     }
 
-    fn send_event(&self, ev: &Event) -> Result<Vec<FfiRequest>, String> {
+    pub fn send_event(&self, ev: &Event) -> Result<Vec<FfiRequest>, String> {
         if let Some(b) = &self.bincode {
             let bytes = bincode_opts().serialize(ev).map_err(|e| e.to_string())?;
             let out = b.process_event(&bytes).map_err(|e| e.to_string())?;
@@ -585,7 +585,7 @@ where
         }
     }
 
-    fn respond(&self, id: u32, kind: u8, val: u64) -> Result<Vec<FfiRequest>, String> {
+    pub fn respond(&self, id: u32, kind: u8, val: u64) -> Result<Vec<FfiRequest>, String> {
         if let Some(b) = &self.bincode {
             let bytes = if kind == KIND_NEVER {
                 bincode_opts().serialize(&()).unwrap()
@@ -613,7 +613,7 @@ where
         }
     }
 
-    fn view(&self) -> Result<ViewModel, String> {
+    pub fn view(&self) -> Result<ViewModel, String> {
         if let Some(b) = &self.bincode {
             let bytes = b.view().map_err(|e| e.to_string())?;
             bincode_opts()
@@ -637,7 +637,7 @@ where
         }
     }
 
-    fn observe(&mut self, reqs: Result<Vec<FfiRequest>, String>, out: &mut Obs) {
+    pub fn observe(&mut self, reqs: Result<Vec<FfiRequest>, String>, out: &mut Obs) {
         match reqs {
             Ok(reqs) => {
                 for r in reqs {
